@@ -148,6 +148,12 @@ instance : MulLaws ℝ where
   right_distrib := add_mul
   div_add := fun a b c => add_div a b c
 
+instance : CommLaws ℝ where
+  mul_comm := mul_comm
+  mul_assoc := mul_assoc
+  mul_zero := mul_zero
+  div_smul := fun α a c => mul_div_assoc α a c
+
 /-- a two-node heap: a tracked leaf `a : [2]` and the recorded product `a * a` -/
 noncomputable def exHeap : State ℝ :=
   let p := hLeaf ({} : State ℝ) ⟨[2], [3, 4]⟩
